@@ -3,7 +3,7 @@
 P=$1; V=$2; WT=/tmp/wt/$P
 cd $WT || exit 9
 if [ -n "$(git diff --stat -- pyiga scripts setup.py)" ]; then echo "$P: tree not clean"; git diff --stat; exit 7; fi
-NEEDBUILD=$(grep -c '^+++ b/.*\.\(pyx\|pxi\|pxd\)' $WT/$V.patch)
+NEEDBUILD=$(grep -c '^+++ b/.*\.\(pyx\|pxi\|pxd\|cc\|cpp\|h\)$' $WT/$V.patch)
 PYTHONPATH=$WT timeout 900 /venv/bin/python demo_$V.py > /tmp/wt/$P.$V.without.log 2>&1; WO=$?
 git apply $WT/$V.patch || { echo "$P $V: patch does not apply"; exit 8; }
 if [ "$NEEDBUILD" != 0 ]; then /venv/bin/python setup.py build_ext --inplace > /tmp/wt/$P.$V.build.log 2>&1; rm -rf build; fi
